@@ -127,3 +127,7 @@ Definition mcs (n:nat) (nf:dict Z scnf) (x:wcnf) (ignore:list Z) : list (list Z)
   let keys := filter (fun k => negb (zmem k ignore)) (dict_keys nf) in
   map (keys_of_bv keys)
       (minimal (dedup (map (violated_bv nf keys) (filter (scnf_holds (w_hard x)) (worlds n))))).
+
+(* min(...) of a non-empty sequence of integers; ValueError on an empty one *)
+Definition py_min {R L} (l:list Z) : ctl R L Z :=
+  match l with [] => Raise | x::r => Next (fold_left Z.min r x) end.
